@@ -27,6 +27,16 @@ pub trait Buf {
         ensures r == (self.rem().len() > 0);
 }
 
+/// R20: `file.read_exact(&mut *block)` on a boxed 32 KiB block.  Assumed (std contract of `Read::read_exact` on a File, over the
+/// ghost FS model of spec/vfs.rs): Ok only if a full block was left to read; it is delivered and consumed.
+#[verifier::external_body]
+pub fn read_exact_block(file: &mut std::fs::File, block: &mut Box<[u8; 32768]>) -> (r: std::io::Result<()>)
+    ensures
+        r is Ok ==> crate::vfs::file_rest(&*old(file)).len() > 0
+            && (**final(block))@ == crate::vfs::file_rest(&*old(file))[0]
+            && crate::vfs::file_rest(&*final(file)) == crate::vfs::file_rest(&*old(file)).skip(1),
+{ use std::io::Read; file.read_exact(&mut **block) }
+
 /// R19: `(start..).zip(it)`.  Assumed (the std contracts of RangeFrom<u64> and Zip): a well-behaved finite iterator
 /// stays so, and the i-th pair is (start + i, i-th element of `it`).
 #[verifier::external_body]
